@@ -42,6 +42,18 @@ ASSUME \A r \in RawReqs : \A w \in {"simple", "ucsend"} :
           PrintT(ToJson([k |-> "raw", f |-> Frame("rr", 7, w, r), fb |-> FrameBytes(ICfg, Frame("rr", 7, w, r))]))
 ASSUME PrintT(ToJson([k |-> "rawreg", f |-> Frame("register", 0, "simple", Rq("read", 1, 0, 1, "INT", <<>>)),
                       fb |-> FrameBytes(ICfg, Frame("register", 0, "simple", Rq("read", 1, 0, 1, "INT", <<>>)))]))
+\* connected messaging by the reference encoder: (Large) Forward Open, SendUnitData with sequence counts, Forward Close
+ISide(id, size, type) == [id |-> id, rpi |-> <<64, 66, 15, 0>>, size |-> size, variable |-> 1, priority |-> 0, type |-> type, redundant |-> 0]
+IFO(otid, ottype, size, serial) ==
+  [prio |-> 10, ticks |-> 5, ot |-> ISide(otid, size, ottype), to |-> ISide(<<1, 0, 254, 128>>, size, 2), serial |-> serial, vendor |-> 4919,
+   oserial |-> <<42, 0, 0, 0>>, mult |-> 3, trigger |-> 163, cpath |-> << [k |-> "port", p |-> 1, l |-> 0], [k |-> "class", v |-> 2], [k |-> "inst", v |-> 1] >>]
+ConnFrame(kind, fo) == [Frame(kind, 7, "simple", Rq("read", 1, 0, 1, "INT", <<>>)) EXCEPT !.route = <<>>] @@ [fo |-> fo]
+UnitFrame(cid, seq, r) == [Frame("unit", 7, "simple", r) EXCEPT !.route = <<>>, !.tmo = 0, !.ctx = <<seq % 256, 9, 9, 9, 9, 9, 9, 9>>] @@ [cid |-> cid, seq |-> seq]
+ICid1 == <<1, 2, 3, 4>>   ICid2 == <<5, 6, 7, 8>>
+ASSUME \A x \in { <<ICid1, 2, 500, 11>>, <<ICid2, 1, 4002, 12>> } : \A kind \in {"fwdopen", "fwdclose"} :
+          LET f == ConnFrame(kind, IFO(x[1], x[2], x[3], x[4])) IN PrintT(ToJson([k |-> "rawconn", f |-> f, fb |-> FrameBytes(ICfg, f)]))
+ASSUME \A r \in RawReqs : \A c \in {ICid1, ICid2} : \A sq \in {1, 2, 65535} :
+          LET f == UnitFrame(c, sq, r) IN PrintT(ToJson([k |-> "rawunit", f |-> f, fb |-> FrameBytes(ICfg, f)]))
 VARIABLE lst
 LInit == lst \in Lists
 LNext == FALSE /\ UNCHANGED lst
